@@ -2,4 +2,4 @@ Require Extraction.
 Require Import ExtrOcamlBasic.
 From LedgerV Require Import Base.Prelude Base.ExtractHelpers Model.Prices.
 Extraction "model_C10.ml" h_add h_mul h_div h_mod h_opp h_ltb h_eqb h_qred h_qmake h_qnum h_qden
-  bal_row percent_row percent_den reg_report prices_report bal_row_memo midnight.
+  bal_row percent_row percent_den reg_report prices_report bal_row_memo midnight bal_row_via bal_row_via_tie find_price_via via_tie build history_of.
